@@ -60,8 +60,34 @@ def decodable(cls, data: bytes) -> bool:
         return False
 
 
+def run_late_bad_payload(case: dict) -> CaseResult:
+    """An undecodable payload of a known type closes the connection with a protocol error -- also on a connection
+    that has something else on its mind: a connect still waiting for its hello answer and a disconnect() that has
+    already given up waiting for that connect (and noted its timeout) and is now waiting for its own answer."""
+    from vf import life
+
+    at = int(case.get("at", 256 * 7))
+    obs = life.run({"noise": bool(case.get("noise")), "login": bool(case.get("login", True)), "flow": "connect", "K": 8.0, "final_at": 400.0, "latency": 64 * 30,
+                    "events": [{"do": "disconnect", "at": 30}, {"do": "chunk", "frames": list(case.get("frames", ["badstate"])), "at": at}]})
+    if obs.harness_error:
+        raise HarnessError(f"C12 late bad payload: {obs.harness_error}")
+    res = CaseResult(nontrivial=True, classes=["undecodable_payload_during_pending_disconnect"])
+    fed = next((e for e in obs.trace if e["kind"] == "feed" and abs(e["t"] - at / 256) < 1e-6), None)
+    if fed is None or obs.skipped:
+        res.classes.append("chunk_skipped")
+        return res
+    closed = next((e for e in obs.trace if e["kind"] == "state" and e["value"].name == "CLOSED"), None)
+    if closed is None or closed["t"] > fed["t"] + 1e-6:
+        res.violations.append(Violation(ID, "c12:undecodable-payload:connection-not-closed",
+                                        f"undecodable payload of a known type fed at t={fed['t']}; connection closed at {closed and closed['t']}"))
+    res.info = {"fed": fed["t"], "closed": closed and closed["t"]}
+    return res
+
+
 def run_case(case: dict) -> CaseResult:
     kind = case.get("kind", "history")
+    if kind == "late_bad_payload":
+        return run_late_bad_payload(case)
     if kind == "silent":
         return run_silent(case)
     if kind == "early":
@@ -627,6 +653,11 @@ def enumerated(tier):
         for what in ("discreq", "ping", "gettime"):
             yield {"kind": "history", "noise": noise, "ops": [{"op": "sub", "id": "c0", "types": [26, 5], "script": []}, {"op": "msg", "type": 26, "payload": {"key": 1}}, {"op": "local_disconnect"},
                                                              {"op": "msg", "type": 26, "payload": {"key": 2}}, {"op": "peer", "what": what}, {"op": "msg", "type": 26, "payload": {"key": 3}}]}
+    for noise in (False, True):
+        for login in (False, True):
+            for frames in (["badstate"], ["state", "badstate", "state2"]):
+                for at in (256 * 6, 256 * 7, 256 * 12):
+                    yield {"kind": "late_bad_payload", "noise": noise, "login": login, "frames": frames, "at": at}
     # several frames in ONE chunk while the client's own disconnect is in flight: each is dispatched, in order
     for noise in (False, True):
         for n in (2, 3, 5):
